@@ -15,7 +15,8 @@ func init() {
 	Registry["C05"] = checkC05
 }
 
-// checkC06: a provider failure surfaces as that failure (caller never cancels).
+// checkC06: a provider failure surfaces as that failure (caller never cancels; the
+// "returns a non-nil error" clause also with the caller cancelling at a free instant).
 func checkC06(c *Ctx) error {
 	c.Level = "model_checking"
 	progs := corpusFor(c)
@@ -59,6 +60,27 @@ func checkC06(c *Ctx) error {
 				ic.report(map[string]string{"kind": "substituted-error", "returned": cls, "return-site": r.Ev.Site}, m, "subst")
 			} else if v == smt.Unknown {
 				c.Inconclusive("substituted-error query unknown for " + ic.Name())
+			}
+		}
+		// (a') the first clause holds whether or not the caller cancels: with the cancellation
+		// instant free as well, no return reports a nil error after an invoked provider failed
+		for _, r := range e.Returns {
+			var errNil string
+			switch {
+			case r.Ev.Err == "Nil":
+				errNil = "true"
+			case strings.HasPrefix(r.Ev.Err, "werr_"):
+				errNil = "(= " + r.Ev.Err + " Nil)"
+			default:
+				continue
+			}
+			c.mu.Lock()
+			queries++
+			c.mu.Unlock()
+			if v, m := ic.Query(true, "cancelled", r.X, F, errNil); v == smt.Sat {
+				ic.report(map[string]string{"kind": "lost-error", "return-site": r.Ev.Site, "caller-cancelled": "true"}, m, "lostc")
+			} else if v == smt.Unknown {
+				c.Inconclusive("lost-error-under-cancellation query unknown for " + ic.Name())
 			}
 		}
 		// (c) no provider that depends on a failed one is invoked
@@ -142,6 +164,17 @@ func checkC07(c *Ctx) error {
 				ic.report(map[string]string{"kind": "silent-partial", "return-site": r.Ev.Site, "has-error-result": fmt.Sprint(ic.Prog.HasErrRes)}, m, "partial")
 			} else if v == smt.Unknown {
 				c.Inconclusive("partial-result query unknown for " + ic.Name())
+			} else if !c.Thorough() && len(e.Fails) > 0 {
+				// the same with provider failures free (a provider may fail because of the
+				// cancellation): still no nil-error return of anything but the complete result
+				c.mu.Lock()
+				queries++
+				c.mu.Unlock()
+				if v, m := ic.Query(true, append([]string{"cancelled", e.SomeFailure()}, extra...)...); v == smt.Sat {
+					ic.report(map[string]string{"kind": "silent-partial", "return-site": r.Ev.Site, "has-error-result": fmt.Sprint(ic.Prog.HasErrRes), "provider-failed": "true"}, m, "partialf")
+				} else if v == smt.Unknown {
+					c.Inconclusive("partial-result-with-failure query unknown for " + ic.Name())
+				}
 			}
 		}
 	})
